@@ -262,12 +262,22 @@ func ParseParameters(query string) []oid.Oid {
 		// positional parameter or an un-positional parameter.
 		// SELECT * FROM users WHERE id = ?
 		if match[1] == "" {
-			parameters = append(parameters, 0)
+			if len(parameters) < buffer.MaxPreparedStatementArgs {
+				parameters = append(parameters, 0)
+			}
+
+			continue
 		}
 
-		position, _ := strconv.Atoi(match[1]) //nolint:errcheck
-		if position > len(parameters) {
-			parameters = parameters[:position]
+		// NOTE: positions which could not be represented or exceed the maximum
+		// number of parameters supported by the protocol are ignored.
+		position, err := strconv.Atoi(match[1])
+		if err != nil || position > buffer.MaxPreparedStatementArgs {
+			continue
+		}
+
+		for len(parameters) < position {
+			parameters = append(parameters, 0)
 		}
 	}
 
